@@ -73,6 +73,13 @@ TickInst(o, i, e) ==
       dep == x.lostAt >= 0 /\ ~x.cut /\ t > DeposedDeadline(x.lostAt, h)
       cut == x.claim /\ x.failRun >= 1 /\ x.okStart >= 0 /\ ~x.hskip /\ t > CutOffDeadline(x.okStart, h)
       pre == x.preSince >= 0 /\ t > PreemptDeadline(x.preSince, o.H)
+      \* C10 promptness: a ready, served, takeover-enabled candidate next to a claiming leader whose stored priority is strictly
+      \* lower, in fault-free conditions (no fault, no outside writer, latency bound <= H/10) - armed when that begins to hold
+      rk == o.rec[x.cfg.group]
+      canPre == /\ x.cfg.tk /\ Cand(o, i) /\ ~o.faulty /\ ~o.hard /\ ~o.outside /\ ~o.slow /\ ~o.connEv /\ ~o.hc /\ 10 * o.L <= o.H
+                /\ rk.live /\ rk.cls = "payload" /\ rk.id \in Ids /\ rk.id # i /\ x.cfg.prio > rk.prio
+                /\ o.I[rk.id].claim /\ o.I[rk.id].ttok = rk.tok
+                /\ (\A op \in o.pend : op.i = i => t - op.at <= 2 * o.L + 1000)
       gr  == x.graceDue >= 0 /\ t > x.graceDue
       rv  == x.reconnAt >= 0 /\ x.claim /\ x.stopping = 0 /\ t > x.reconnAt + 100000 + 50000
       sl  == x.st.open /\ ~x.st.late /\ t > x.st.at + x.st.bound + 4 * o.L + 1000
@@ -87,7 +94,7 @@ TickInst(o, i, e) ==
            \cup (IF rv THEN {V("C11", "no_fresh_read_after_reconnect_notification", i, e)} ELSE {})
       y == [x EXCEPT !.lostAt = IF dep THEN -1 ELSE @,
                      !.okStart = IF cut THEN -1 ELSE @,
-                     !.preSince = IF pre THEN -1 ELSE @,
+                     !.preSince = IF pre \/ ~canPre THEN -1 ELSE IF @ >= 0 THEN @ ELSE t,
                      !.graceDue = IF gr THEN -1 ELSE @,
                      !.reconnAt = IF rv \/ ~x.claim THEN -1 ELSE @,
                      !.st.late = @ \/ sl,
@@ -170,7 +177,7 @@ H_reset(o, e) ==
 
 H_start_call(o, e) ==
   LET x == o.I[e.i] IN
-  R(SetI(o, e.i, [x EXCEPT !.started = TRUE, !.stopped = FALSE, !.halted = FALSE, !.lastTo = "CANDIDATE", !.ready = FALSE]), {})
+  R(SetI(o, e.i, [x EXCEPT !.started = TRUE, !.stopped = FALSE, !.halted = FALSE, !.lastTo = "CANDIDATE", !.ready = FALSE, !.graceDue = -1]), {})
 
 H_stop_call(o, e) ==
   LET x == o.I[e.i]
@@ -180,7 +187,7 @@ H_stop_call(o, e) ==
       st == [open |-> TRUE, variant |-> e.variant, del |-> e.del, wait |-> e.wait,
              bound |-> StopBound(e.variant, tmo, x.cfg.ddur, e.wait), at |-> e.t,
              owner |-> x.claim /\ ClaimBacked(e.i, r, x.ttok) /\ r.writer = e.i, late |-> FALSE, hadClaim |-> x.claim, checked |-> FALSE, checkedOp |-> 0, checkRespAt |-> -1]
-  IN R([SetI(o, e.i, [x EXCEPT !.stopping = @ + 1, !.st = st, !.halted = TRUE, !.ready = FALSE, !.owes = @ \/ (x.claim /\ x.cfg.cb)]) EXCEPT !.stopSeen = TRUE], {})
+  IN R([SetI(o, e.i, [x EXCEPT !.stopping = @ + 1, !.st = st, !.halted = TRUE, !.ready = FALSE, !.graceDue = -1, !.owes = @ \/ (x.claim /\ x.cfg.cb)]) EXCEPT !.stopSeen = TRUE], {})
 
 H_stop_ret(o, e) ==
   LET x == o.I[e.i]
@@ -339,7 +346,7 @@ ClaimEdge(o, i, b, e) ==
                           !.vc = {IF ClaimBacked(i, r, x.acqTok) THEN [c EXCEPT !.saw = TRUE] ELSE c : c \in @},
                           !.verify = "none", !.verifyAt = -1]
            ELSE IF falling
-           THEN [x EXCEPT !.claim = FALSE, !.termLive = FALSE, !.graceDue = -1, !.hdue = FALSE, !.why = x.note, !.note = "",
+           THEN [x EXCEPT !.claim = FALSE, !.termLive = FALSE, !.hdue = FALSE, !.why = x.note, !.note = "",
                           !.verify = "none",
                           !.lostAt = IF x.cfg.cb /\ ~inStop THEN @ ELSE -1]
            ELSE x
@@ -421,7 +428,9 @@ H_note(o, e) ==
 
 H_disc(o, e) ==
   LET x == o.I[e.i] IN
-  R([SetI(o, e.i, [x EXCEPT !.lastDisc = e.t, !.graceDue = IF x.claim THEN e.t + x.cfg.grace ELSE -1])
+  R([SetI(o, e.i, \* the grace period runs from the latest disconnect notification, whoever leads when it elapses (a later term of the
+      \* same instance included); a stop or restart of the instance ends the demand
+      [x EXCEPT !.lastDisc = e.t, !.graceDue = IF x.halted \/ ~x.started THEN -1 ELSE e.t + x.cfg.grace])
       EXCEPT !.connEv = TRUE], {})
 H_reconn(o, e) ==
   LET x == o.I[e.i] IN
@@ -437,7 +446,7 @@ H_heal(o, e) ==
 
 H_val_call(o, e) ==
   LET x == o.I[e.i]
-      c == [cid |-> e.cid, call |-> e.call, wasLeader |-> x.claim, saw |-> Own(o, e.i), nd |-> x.nd]
+      c == [cid |-> e.cid, call |-> e.call, wasLeader |-> x.claim, saw |-> Own(o, e.i), nd |-> x.nd, ctx |-> e.ctx, at |-> e.t]
   IN R(SetI(o, e.i, [x EXCEPT !.vc = @ \cup {c}]), {})
 
 H_val_ret(o, e) ==
@@ -448,7 +457,11 @@ H_val_ret(o, e) ==
       v2 == IF e.call = "vod" /\ ~e.ok /\ e.leader THEN {V("C04", "still_leader_after_failed_validate_or_demote", e.i, e)} ELSE {}
       v3 == IF e.call = "vod" /\ ~e.ok /\ cs # {} /\ c.wasLeader /\ x.cfg.cb /\ x.nd <= c.nd /\ x.stopping = 0
             THEN {V("C04", "no_demotion_callback_after_failed_validate_or_demote", e.i, e)} ELSE {}
-  IN R(SetI(o, e.i, [x EXCEPT !.vc = @ \ cs]), v1 \cup v2 \cup v3)
+      \* "cancelled or expired context -> false": a context that was cancelled before the call (ctx = -1), or whose deadline
+      \* (ctx > 0, microseconds from the call) passed more than a millisecond before the return
+      v4 == IF e.ok /\ cs # {} /\ (c.ctx = -1 \/ (c.ctx > 0 /\ e.t > c.at + c.ctx + 1000))
+            THEN {V("C04", "validation_true_with_cancelled_or_expired_context", e.i, e)} ELSE {}
+  IN R(SetI(o, e.i, [x EXCEPT !.vc = @ \ cs]), v1 \cup v2 \cup v3 \cup v4)
 
 \* snapshot of the public API at a quiescent point
 H_snap(o, e) ==
